@@ -22,8 +22,7 @@ Theorem atomic_failures c w pl w' e :
   atomic_class c = true -> step_class St w c pl = (w', Some e) -> w' = w.
 Proof.
   intros Hc H. destruct c; try discriminate Hc; cbn [step_class] in H;
-  try (eapply atomic_inv; exact H).
-  - (* BattleStats *) inversion H.
+  eapply atomic_inv; exact H.
 Qed.
 
 (* a failing entity-creation packet never registers the entity; subscribers of the properties decoded
@@ -67,6 +66,49 @@ Theorem unmapped_is_noop_lenient w xs p ys :
   play_lenient St w (xs ++ p :: ys) = play_lenient St w (xs ++ ys).
 Proof.
   intros H. rewrite !play_lenient_app. cbn [play_lenient]. now rewrite step_unmapped.
+Qed.
+
+(* mapped packets the player only logs or ignores *)
+Definition ignored_class (c : pclass) : bool :=
+  match c with EntityControl | EntityEnter | EntityLeave | Version | BattleStats => true | _ => false end.
+
+Ltac crush H :=
+  repeat match type of H with
+  | context [bind ?c _] => let E := fresh "E" in destruct c eqn:E; cbn [bind] in H
+  | context [let '(_, _) := ?p in _] => destruct p
+  | context [if ?b then _ else _] => destruct b
+  end.
+
+Theorem ignored_mapped_is_noop w p c :
+  table_get (pk_type p) (s_table St) = Some c -> ignored_class c = true ->
+  forall w', step St w p = (w', None) -> w' = w.
+Proof.
+  intros Ht Hc w' H. unfold step in H. rewrite Ht in H.
+  destruct c; try discriminate Hc; destruct (s_game St); cbn [step_class] in H;
+  first [ now (inversion H)
+        | apply atomic_ok in H; crush H; try discriminate H; inversion H; reflexivity ].
+Qed.
+
+(* C05: the id announced by the base-player packet is reported as the recording player *)
+Theorem player_id_reported w pl w' :
+  step_class St w BasePlayerCreate pl = (w', None) ->
+  exists id r, get_s 4 pl = Ok (id, r) /\ w_player w' = Some id.
+Proof.
+  cbn [step_class]. intros H.
+  destruct (get_s 4 pl) as [[id r1]|] eqn:E1; cbn [bind] in H; [|discriminate H].
+  exists id, r1. split; [reflexivity|].
+  destruct (get_s 2 r1) as [[t r2]|]; cbn [bind] in H; [|discriminate H].
+  destruct (binstream r2) as [[val r3]|]; cbn [bind] in H; [|discriminate H].
+  destruct (zassoc_get id (w_entities w)) as [e0|].
+  - destruct (s_game St).
+    + destruct (model_of St (en_type e0)); [|discriminate H]. destruct (fill _ _ _ _) as [e' [er|]]; inversion H; reflexivity.
+    + inversion H; reflexivity.
+    + destruct (model_of St (en_type e0)); [|discriminate H]. destruct (fill _ _ _ _) as [e' [er|]]; inversion H; reflexivity.
+  - destruct (new_entity St id "Avatar") as [e0|]; cbn [bind] in H; [|discriminate H].
+    destruct (s_game St).
+    + destruct (model_of St (en_type e0)); [|discriminate H]. destruct (fill _ _ _ _) as [e' [er|]]; inversion H; reflexivity.
+    + inversion H; reflexivity.
+    + destruct (model_of St (en_type e0)); [|discriminate H]. destruct (fill _ _ _ _) as [e' [er|]]; inversion H; reflexivity.
 Qed.
 
 (* C12 *)
